@@ -41,16 +41,30 @@ def gen_case(r, info, second_doc):
     attrs = sorted(info.attr_names) or ['x']
     keys = []
     parts = [HEAD % '']
+    # in a third of the cases some declarations live in imported / included modules (two levels): every declaration of a name defines the key,
+    # whatever module it is in and whatever the import precedence (XSLT 12.2), so the same names are used across modules
+    modules = {}
+    use_modules = r.random() < 0.35
+    if use_modules:
+        parts.append('<xsl:%s href="imp1.xsl"/>' % r.choice(['import', 'import', 'include']))
+        modules['imp1.xsl'] = ['<xsl:%s href="imp2.xsl"/>' % r.choice(['import', 'include'])] if r.random() < 0.5 else []
+        if modules['imp1.xsl']:
+            modules['imp2.xsl'] = []
     parts.append('<xsl:output method="xml"/>')
-    nk = r.choice([1, 2, 3, 4])
+    nk = r.choice([1, 2, 3, 4]) + (1 if use_modules else 0)
     for i in range(nk):
         name = 'k%d' % i
-        if i > 0 and r.random() < 0.25:
+        if i > 0 and r.random() < (0.5 if use_modules else 0.25):
             name = keys[0][0]            # the same name declared twice: union of both declarations
         m, e = key_family(r, names, attrs)
         u = r.choice(USES)
         keys.append((name, m, e, u))
-        parts.append('<xsl:key name="%s" match="%s" use="%s"/>' % (name, gen_xslt.aesc(m), gen_xslt.aesc(u)))
+        decl = '<xsl:key name="%s" match="%s" use="%s"/>' % (name, gen_xslt.aesc(m), gen_xslt.aesc(u))
+        where_ = r.choice(['main'] + sorted(modules) * 2) if use_modules else 'main'
+        if where_ == 'main':
+            parts.append(decl)
+        else:
+            modules[where_].append(decl)
     values = sorted(set(list(info.values)[:12] + gen_xml.VALUES[:8] + ['', 'doc', 'a', 'b', '1', '2', '0']))
     lookups = []
     for _ in range(r.choice([10, 25, 40])):
@@ -85,7 +99,8 @@ def gen_case(r, info, second_doc):
     for chunk in body[1:-1]:
         wrapped.append('<xsl:for-each select="/">' + chunk + '</xsl:for-each>')
     parts.append('<xsl:template match="/"><out>' + ''.join(wrapped) + '</out></xsl:template></xsl:stylesheet>')
-    return ''.join(parts), keys, lookups
+    files = dict((fn, (HEAD % '') + ''.join(sorted(ds, key=lambda d: not d.startswith('<xsl:import'))) + '</xsl:stylesheet>') for fn, ds in modules.items())
+    return ''.join(parts), keys, lookups, files
 
 
 def case(ctx, idx, res):
@@ -99,14 +114,18 @@ def case(ctx, idx, res):
     if use_second:
         info.elem_names |= info2.elem_names
         info.attr_names |= info2.attr_names
-    xsl, keys, lookups = gen_case(r, info, use_second)
+    xsl, keys, lookups, files = gen_case(r, info, use_second)
     d = os.path.join(ctx.workdir, 'c15')
     os.makedirs(d, exist_ok=True)
     open(os.path.join(d, 'second.xml'), 'w').write(second)
+    for fn, text in files.items():
+        open(os.path.join(d, fn), 'w', encoding='utf-8').write(text)
+    if files:
+        res.count('cases_with_modules')
     mp = os.path.join(d, 'main.xsl')
     open(mp, 'w').write(xsl)
     rx = runner.transform(None, xml, sty='file', xslpath=mp)
-    payload = {'stylesheet': xsl, 'document': xml, 'second.xml': second if use_second else None}
+    payload = {'stylesheet': xsl, 'document': xml, 'second.xml': second if use_second else None, 'modules': files}
     res.count('cases')
     res.count('lookups', len(lookups))
     res.sig = tuple(sorted((k[1], k[3]) for k in keys))
@@ -143,7 +162,7 @@ def case(ctx, idx, res):
         res.count('lookups_with_results' if kset else 'lookups_empty')
     # second oracle: the reference interpreter (generate-id values differ: compare structure with ids abstracted)
     try:
-        refout, p = refxslt.transform(xsl, xml, doc_loader=lambda h: second if h == 'second.xml' else None)
+        refout, p = refxslt.transform(xsl, xml, loader=lambda h: files.get(h), doc_loader=lambda h: second if h == 'second.xml' else None)
     except (refxslt.XsltError, X.XPathError, X.XPathSyntaxError):
         res.count('reference_error')
         return
@@ -160,13 +179,13 @@ def case(ctx, idx, res):
 def main():
     chk = Check('C15')
     chk.rule = ('1-4 xsl:key declarations (same name twice, use yielding node-sets, attribute / text / predicate / union match patterns) x documents with '
-                'duplicate values x 10-40 lookups per case in generated or shuffled order, string and node-set arguments, main source and a document() load. '
+                'duplicate values, in a third of the cases spread over imported / included modules of two levels that declare the same names, x 10-40 lookups per case in generated or shuffled order, string and node-set arguments, main source and a document() load. '
                 'A case is one (declarations, document, lookup sequence); all are non-trivial; distinct = distinct set of (match, use) pairs.')
     chk.assumptions = ['the brute-force defining expression is evaluated by the library itself in the same run (XPath correctness is C02)', 'the reference interpreter gives a second opinion on the counts']
     chk.ensure('plain', 'xvdrv')
     n = 6000 if chk.tier == 'quick' else 80000
     chk.run_cases('c15', 'case', range(n))
-    chk.finish(min_nontrivial=100, required_stats=('lookups_with_results', 'agree_with_reference'))
+    chk.finish(min_nontrivial=100, required_stats=('lookups_with_results', 'agree_with_reference', 'cases_with_modules'))
 
 
 if __name__ == '__main__':
